@@ -53,6 +53,25 @@ fn run_entry(entry: &str, input: &[u8]) -> Option<bool> {
             use lettre::message::header::Header;
             header::Date::parse(&text()).is_ok()
         }
+        // `Header::parse` of every typed header (what `Headers::get::<T>()` runs on a stored value) on the same text
+        "hparse" => {
+            use lettre::message::header::Header;
+            let t = text();
+            let mut any = false;
+            any |= header::ContentDisposition::parse(&t).is_ok();
+            any |= <header::ContentType as Header>::parse(&t).is_ok();
+            any |= header::ContentTransferEncoding::parse(&t).is_ok();
+            any |= header::MimeVersion::parse(&t).is_ok();
+            any |= header::Date::parse(&t).is_ok();
+            any |= header::Subject::parse(&t).is_ok();
+            any |= header::MessageId::parse(&t).is_ok();
+            any |= header::ContentId::parse(&t).is_ok();
+            any |= header::To::parse(&t).is_ok();
+            any |= header::From::parse(&t).is_ok();
+            any |= header::Sender::parse(&t).is_ok();
+            any |= header::ReplyTo::parse(&t).is_ok();
+            any
+        }
         "url" => lettre::SmtpTransport::from_url(&text()).is_ok(),
         "aurl" => lettre::AsyncSmtpTransport::<lettre::Tokio1Executor>::from_url(&text()).is_ok(),
         "resp" => text().parse::<lettre::transport::smtp::response::Response>().is_ok(),
@@ -86,6 +105,17 @@ fn run_entry(entry: &str, input: &[u8]) -> Option<bool> {
             .body(text())
             .map(|m| m.formatted().len())
             .is_ok(),
+        // one distinct recipient per 16 octets of input, set as one `To` header (a `Mailboxes` value): the envelope is derived
+        // from the headers when the message is built
+        "msgto" => {
+            let n = input.len() / 16 + 1;
+            let mut mbs = lettre::message::Mailboxes::new();
+            for k in 0..n {
+                mbs.push(lettre::message::Mailbox::new(None, format!("user{k}@example.org").parse().ok()?));
+            }
+            let to: header::To = mbs.into();
+            Message::builder().from("a@b.c".parse().ok()?).mailbox(to).body(String::from("x")).map(|m| m.envelope().to().len() == n).unwrap_or(false)
+        }
         "msgnofrom" => Message::builder().to("x@y.z".parse().ok()?).body(text()).is_ok(),
         "msgid" => Message::builder()
             .from("a@b.c".parse().ok()?)
